@@ -1,8 +1,9 @@
 #!/usr/bin/env python3
 """Prints the measured sizes of the committed evidence files as one table."""
-import json, glob, os
+import json, glob, os, sys
+DIR = sys.argv[1] if len(sys.argv) > 1 else "evidence"  # e.g. evidence-thorough
 rows = []
-for f in sorted(glob.glob(os.path.join(os.path.dirname(__file__), "..", "evidence", "C*.json"))):
+for f in sorted(glob.glob(os.path.join(os.path.dirname(__file__), "..", DIR, "C*.json"))):
     e = json.load(open(f))
     c = e["coverage"]
     def g(*ks):
